@@ -439,7 +439,7 @@ void run_case(vf::Case& c)
             Parse<T> p(tag.name, pool, cnt);
             for (int v = (int)tmin<T>(); v <= (int)tmax<T>(); ++v) { p.value((T)v, base, (unsigned)(v + 128 + base)); }
             p.boundary_strings(base);
-            p.grammar_product(base);
+            if (!thin || base == 2 || base == 8 || base == 10 || base == 16 || base == 36 || base % 11 == (int)(ti % 11)) { p.grammar_product(base); }
         });
     } else if (c.enumerated && c.index < n8 + n16) {
         std::uint64_t k = c.index - n8;
@@ -457,7 +457,7 @@ void run_case(vf::Case& c)
                 for (int v = lo + 1 + (thin ? (base + chunk) % 7 : 0); v < lo + 4095; v += step) { p.value((T)v, base, (unsigned)(v + 40000 + base)); }
                 if (chunk == 0) {
                     p.boundary_strings(base);
-                    p.grammar_product(base);
+                    if (!thin || base == 2 || base == 8 || base == 10 || base == 16 || base == 36 || base % 11 == (int)(ti % 11)) { p.grammar_product(base); }
                 }
             }
         });
@@ -471,7 +471,8 @@ void run_case(vf::Case& c)
             unsigned salt = (unsigned)base;
             for (T v : boundary_values<T>(base, thin ? 300 : 2000)) { p.value(v, base, salt++); }
             p.boundary_strings(base);
-            p.grammar_product(base);
+            // ASan quick build: the grammar product for the common bases and one more per type (the plain build runs all 35)
+            if (!thin || base == 2 || base == 8 || base == 10 || base == 16 || base == 36 || base % 11 == (int)(ti % 11)) { p.grammar_product(base); }
         });
     } else {
         unsigned ti = (unsigned)c.rng.below(kTypes);
